@@ -439,6 +439,12 @@ impl Report {
         for f in self.known.open.iter().filter(|f| f.prop == self.ctx.prop) {
             let Some(path) = &f.replay else { continue };
             let j = read_replay(path);
+            // (two-part checks: a probe belongs to the part that recorded it)
+            if let (Some(p), Ok(mine)) = (j["case"]["part"].as_str(), std::env::var("VERIF_EVIDENCE_PART")) {
+                if p != mine {
+                    continue;
+                }
+            }
             match replay(&j["case"]) {
                 Err(_) => self.known_probe_hit(&f.key),
                 Ok(()) => println!("NOTE: known finding property={} key={} no longer reproduces on this tree", f.prop, f.key),
